@@ -310,7 +310,7 @@ pub fn run(ctx: &Ctx, replay: Option<&J>, chunked: bool) -> CheckResult {
     let rule = if !chunked {
         "proptest-generated buffers of up to 6 segments {valid frame (payload 0..=1023, random reserved bits), garbage, lone 0xD3, \
          header announcing a long body, frame with one flipped bit, truncated frame, frame nested in the payload of a valid/invalid outer \
-         candidate, D3-rich bytes}; oracle: next_msg_frame == reference scanner (consumed, presence, exact byte range), consumed<=len, every \
+         candidate, D3-rich bytes}, plus an enumeration of all 65536 (reserved bits, length) header patterns as valid frames inside buffers longer than a maximum-length frame; oracle: next_msg_frame == reference scanner (consumed, presence, exact byte range), consumed<=len, every \
          skipped 0xD3 is a complete wrong-CRC candidate, MsgFrameIter yields the reference frame list/consumed total and terminates. \
          non-trivial = >=2 segment kinds and a 0xD3 before the delivered frame or an incomplete candidate; distinct = hash of the buffer"
             .to_string()
@@ -385,6 +385,59 @@ pub fn run(ctx: &Ctx, replay: Option<&J>, chunked: bool) -> CheckResult {
             },
             |segs| json!({"kind":"stream","bytes":hex(&build_stream(segs)),"segments":segs.iter().map(seg_kind).collect::<Vec<_>>()}),
         );
+        let (mut ev, mut vs) = (ev, vs);
+        // enumerator: every (reserved bits, length) header pattern as a valid frame at offset 0..2 of a buffer that continues
+        // with more than a maximum-length frame of other data (another frame, 0xD3 bytes, garbage)
+        use rayon::prelude::*;
+        let parts: Vec<(Evidence, Vec<Violation>)> = (0..1024usize)
+            .into_par_iter()
+            .map(|l| {
+                let mut ev = Evidence::new();
+                let mut vs = Vec::new();
+                let mut rng = ctx.rng("c05-headers", l as u64);
+                let p = rng.bytes(l);
+                let other = crate::pool::random_frame(&mut rng, 40, true);
+                for r in 0..64u8 {
+                    let f = frame_with_reserved(&p, r);
+                    let mut buf: Vec<u8> = Vec::with_capacity(2200);
+                    match (l + r as usize) % 3 {
+                        0 => {}
+                        1 => buf.push(0x55),
+                        _ => buf.extend_from_slice(&[0xD3, 0x00]),
+                    }
+                    buf.extend_from_slice(&f);
+                    match r % 4 {
+                        0 => buf.extend_from_slice(&other),
+                        1 => buf.extend(std::iter::repeat(0xD3u8).take(8)),
+                        2 => buf.extend(rng.bytes(16)),
+                        _ => {}
+                    }
+                    let fill = rng.bytes(1100);
+                    buf.extend_from_slice(&fill);
+                    ev.evaluations += 1;
+                    match oracle_scan(&buf) {
+                        Ok(()) => {
+                            ev.distinct_by_construction += 1;
+                        }
+                        Err((sig, msg)) => {
+                            if vs.is_empty() {
+                                vs.push(Violation { property: "C05".into(), signature: sig, message: msg, case: json!({"kind":"stream","bytes":hex(&buf),"segments":["all-header-patterns"]}) });
+                            }
+                        }
+                    }
+                }
+                (ev, vs)
+            })
+            .collect();
+        for (e, v) in parts {
+            ev.merge(e);
+            for x in v {
+                if !vs.iter().any(|y: &Violation| y.signature == x.signature) {
+                    vs.push(x);
+                }
+            }
+        }
+        ev.class_n("enumerated/all-65536-header-patterns-in-long-buffers", 65536);
         return CheckResult { evidence: ev, rule, assumptions, violations: vs };
     }
     let cases = ctx.n(1_000_000, 30_000_000);
